@@ -17,6 +17,7 @@ import P2P.Proofs.TerminiLemmas
 import P2P.Model.ChargeTable
 import P2P.Proofs.ChargeTableAll
 import P2P.Proofs.ChargeLinkLemmas
+import P2P.Proofs.ChargeTotal
 
 namespace P2P.Props.C02
 open P2P P2P.Termini P2P.State P2P.Proofs.Termini
@@ -161,6 +162,30 @@ theorem residue_charge_from_table (r : RInfo) (ha : isAmino r = true)
   rw [hent] at h
   simp only [hq] at h
   exact of_decide_eq_true h
+
+/-- **From the table to whole structures**: for each of the six force fields and EVERY sequence
+(any length, any composition, any order) of fully parameterised amino-acid states of the table, the
+exact total charge is the unit times the sum of the states' formal charges — an integer number of
+elementary charges. -/
+theorem structure_total_integral :
+    ∀ ff ∈ P2P.Gen.FFCharges.all, ∀ rs : List ResDef,
+      (∀ r ∈ rs, r ∈ aminoDefs ∧ excluded.contains r.name = false ∧
+        knownNonIntegral.contains (ff.1, r.name) = false ∧ cellCovered ff.2 r = true) →
+      structureTotal ff.2 rs = some (unit * (rs.map (fun r => formalOfName r.name)).sum) :=
+  structure_total_integral_core
+
+/-- … and such a total, expressed in e, passes the total-charge guard of `main.non_trivial`
+(`noninteger_charge`) for every tolerance: a structure of fully parameterised standard states never
+fails the charge check (C12's success side; floating-point summation error is what the tolerance
+1e-3 is for and is observed on the runs, not proved). -/
+theorem integral_total_passes_guard (n : Int) (tol : ℚ) :
+    P2P.ChargeGuard.nonInteger (((unit * n : Int) : ℚ) / (unit : ℚ)) tol = false :=
+  integral_total_passes_guard_core n tol
+
+/-- non-vacuity: three states of the table under AMBER -/
+example : (["NALA", "ASH", "CLYS"].map str).all (fun n =>
+    aminoDefs.any (fun r => r.name = n && cellCovered P2P.Gen.FFCharges.AMBER r)) = true := by
+  decide +kernel
 
 example : formalOfName (str "NEUTRAL-CGLU") = -1 ∧ formalOfName (str "NLYS") = 2 ∧ formalOfName (str "CASH") = -1 ∧
     formalOfName (str "HID") = 0 ∧ formalOfName (str "CYX") = 0 := by decide
